@@ -616,12 +616,23 @@ class BlotterMonitor(Monitor):
                     self.expect_adopted.append((cur.market_id, oid, cur.bet_id, hashes[h].name))
 
     def on_step_end(self):
+        self._settle_adoptions(final=True)
+        for market in self.run.fw.markets:
+            self.audit(market, "handler_step_end")
+
+    def _settle_adoptions(self, final):
+        """Moves the bets the current snapshot showed (and no local order referred to) into the own journal once they are
+        in their market's blotter. final=False: called from an audit inside the handler (a pool thread that runs inside
+        submit() finishes a request before the handler returns) - what is not adopted yet is only demanded at the end."""
+        left = []
         for mid, oid, bet_id, sname in getattr(self, "expect_adopted", ()):
             market = self.run.fw.markets.markets.get(mid)
             order = None
             if market is not None and oid in market.blotter:
                 order = market.blotter[oid]
-            if order is None:
+            if order is None and not final:
+                left.append((mid, oid, bet_id, sname))
+            elif order is None:
                 self.violate(self.P, "C15.views", "order-shown-by-the-order-stream-not-in-its-markets-blotter", market=mid, bet_id=bet_id, strategy=sname, market_registered=market is not None, market_closed=bool(market is not None and market.closed))
             else:
                 # adoption happens while the snapshot is processed, i.e. before the strategies' process_orders callbacks
@@ -632,11 +643,10 @@ class BlotterMonitor(Monitor):
                 self.len_at_event[mid] = at + 1
                 self.res.nontrivial = True
                 self.res.probes["c15.live.adopted_at_runtime" + (".into_closed_market" if market.closed else "")] += 1
-        self.expect_adopted = []
-        for market in self.run.fw.markets:
-            self.audit(market, "handler_step_end")
+        self.expect_adopted = left
 
     def on_exec_after(self, pkg):
         market = self.run.fw.markets.markets.get(pkg.market_id)
         if market is not None:
+            self._settle_adoptions(final=False)
             self.audit(market, "exec_after")
